@@ -78,6 +78,10 @@ def build_harness(race=False):
     cmd = ["go", "build", "-modfile", modfile, "-tags", "verif", "-o", out]
     if race:
         cmd.insert(2, "-race")
+    if os.environ.get("VERIF_COVER"):
+        # development aid: statement coverage of the implementation under the checks (GOCOVERDIR must be set)
+        P = "github.com/jmeaster30/vore/libvore"
+        cmd[2:2] = ["-cover", "-coverpkg=vharness,%s,%s/engine,%s/ast,%s/bytecode,%s/files,%s/ds" % (P, P, P, P, P, P)]
     cmd.append(".")
     p = subprocess.run(cmd, cwd=HARNESS_SRC, env=GOENV, capture_output=True, text=True)
     if p.returncode != 0:
